@@ -95,6 +95,62 @@ def rate_cls(kind):
     return cls, (tps.ConfirmedLastBlock if last else tps.Confirmed), (cl if last else c), last
 
 
+def seeded_hdap(kind, R):
+    """an RCP / TMP application payload object with seeded field values (every opcode the library can serialise and parse back); opaque
+    octet fields (alias, text, raw values) are arbitrary octets - for HRNP they are a length-prefixed byte string"""
+    import okdmr.dmrlib.hytera.pdu.radio_control_protocol as rcp
+    from okdmr.dmrlib.hytera.pdu.radio_ip import RadioIP
+    from okdmr.dmrlib.hytera.pdu.text_message_protocol import TextMessageProtocol, TMPService
+
+    def octets(n):
+        return bytes(R.choice([0, 0xFF, 0x80, 0xC3, 0xD8, 0x41, R.getrandbits(8)]) for _ in range(n))
+
+    rel = R.random() < 0.5
+    if kind == "hrnp-tmp":
+        op = R.choice([TMPService.SendPrivateMessage, TMPService.SendGroupMessage])
+        return TextMessageProtocol(opcode=op, is_reliable=rel, is_confirmed=R.random() < 0.5, request_id=R.choice([0, 1, 0xFFFFFFFF, R.getrandbits(32)]),
+                                   destination_ip=RadioIP(radio_id=R.choice([1, 0xFFFFFF, R.getrandbits(24)])), source_ip=RadioIP(radio_id=R.choice([1, R.getrandbits(24)])),
+                                   text_data=octets(R.choice([0, 1, 2, 3, 8, 9, 40])))
+    O = rcp.RCPOpcode
+    ids = lambda: R.choice([0, 1, 0xFFFFFF, R.getrandbits(24), R.getrandbits(32)])
+    ct = lambda: R.choice(list(rcp.RCPCallType))
+    resl = lambda: R.choice(list(rcp.RCPResult))
+    op = R.choice([O.CallRequest, O.CallReply, O.RepeaterBroadcastTransmitStatus, O.BroadcastMessageConfigurationReply, O.RadioIDAndRadioIPQueryRequest,
+                   O.RadioIDAndRadioIPQueryReply, O.BroadcastStatusConfigurationRequest, O.BroadcastStatusConfigurationReply, O.SendTalkerAliasRequest,
+                   O.SendTalkerAliasRequest, O.SendTalkerAliasReply, O.ZoneAndChannelOperationRequest, O.StatusChangeNotificationRequest,
+                   O.StatusChangeNotificationRequest, O.StatusChangeNotificationReply, O.RadioStatusReport, O.UnknownService])
+    kw = {}
+    if op == O.CallRequest:
+        kw = dict(call_type=ct(), target_id=ids())
+    elif op in (O.CallReply, O.BroadcastMessageConfigurationReply, O.BroadcastStatusConfigurationReply, O.StatusChangeNotificationReply):
+        kw = dict(result=resl())
+    elif op == O.RepeaterBroadcastTransmitStatus:
+        kw = dict(repeater_mode=R.choice(list(rcp.RepeaterMode)), repeater_status=R.choice(list(rcp.RepeaterStatus)),
+                  repeater_service_type=R.choice(list(rcp.RepeaterServiceType)), call_type=ct(), target_id=ids(), sender_id=ids())
+    elif op == O.RadioIDAndRadioIPQueryRequest:
+        kw = dict(target=R.choice(list(rcp.RadioIpIdTarget)))
+    elif op == O.RadioIDAndRadioIPQueryReply:
+        kw = dict(result=resl(), target=R.choice(list(rcp.RadioIpIdTarget)), raw_value=octets(4))
+    elif op == O.BroadcastStatusConfigurationRequest:
+        n = R.choice([0, 1, 2, 5])
+        kw = dict(broadcast_config_raw=bytes([n]) + octets(2 * n))
+    elif op == O.SendTalkerAliasRequest:
+        kw = dict(call_type=ct(), sender_id=ids(), target_id=ids(), talker_alias_format=R.choice(list(rcp.TalkerAliasDataFormat)),
+                  talker_alias_data=octets(R.choice([0, 1, 3, 6, 7, 14, 31])))
+    elif op == O.SendTalkerAliasReply:
+        kw = dict(result=resl(), call_type=ct(), sender_id=ids(), target_id=ids())
+    elif op == O.ZoneAndChannelOperationRequest:
+        kw = dict(raw_payload=octets(5))
+    elif op == O.StatusChangeNotificationRequest:
+        tg = R.sample(list(rcp.StatusChangeNotificationTargets), R.choice([0, 1, 2, 4, 7]))
+        kw = dict(status_change_settings={t: R.choice(list(rcp.StatusChangeNotificationSetting)) for t in tg})
+    elif op == O.RadioStatusReport:
+        kw = dict(status_change_target=R.choice(list(rcp.StatusChangeNotificationTargets)), status_change_value=R.choice([0, 1, 0xFFFF, R.getrandbits(16)]))
+    elif op == O.UnknownService:
+        kw = dict(raw_opcode=bytes([R.getrandbits(8) | 1, 0x7F]), raw_payload=octets(R.choice([0, 1, 4, 9])))
+    return rcp.RadioControlProtocol(opcode=op, is_reliable=rel, **kw)
+
+
 def make(kind, R):
     """build a PDU of this kind from seeded field values (biased to boundaries) and serialise it -> bit string"""
     from bitarray import bitarray
@@ -144,7 +200,11 @@ def make(kind, R):
             data = RadioRegistrationService(opcode=R.choice([RRSTypes.RadioRegistrationRequest, RRSTypes.RadioGoingOffline, RRSTypes.RadioRegistrationAnswer]),
                                             radio_ip=RadioIP(radio_id=edge(24)), renew_time_seconds=R.randrange(1, 0xFFFE))
         elif kind in HDAP_HEX:
-            data = HDAP.from_bytes(bytes.fromhex(R.choice(HDAP_HEX[kind])))
+            data = None
+            if kind in ("hrnp-rcp", "hrnp-tmp") and R.random() < 0.7:
+                data = seeded_hdap(kind, R)  # application payload built through the public constructors from seeded field values
+            if data is None:
+                data = HDAP.from_bytes(bytes.fromhex(R.choice(HDAP_HEX[kind])))
         raw = HRNP(opcode=op, data=data, **common).as_bytes()
         if R.random() < 0.35:
             # adversarial CLEAN case, computed with the reference arithmetic: choose the packet number so that the 16-bit ones-complement
@@ -236,6 +296,7 @@ def std_patterns(kind, n, R, tier, full=None):
 
 class C04(Check):
     pid = "C04"
+    library_exception_is_violation = True  # every call made in execute() is one the property covers, with valid arguments
     level = "fault_enumeration"
     chunk = 4
     run_timeout = 900.0
@@ -397,7 +458,7 @@ class C04(Check):
             res["digest"] = log.digest()
             return res
         res["cov"].add(f"{kind}|clean|-|true")
-        if kind in HRNPK and "ops" not in case or case.get("pclass") == "modify":
+        if kind in HRNPK and ("ops" not in case or case.get("hist")) or case.get("pclass") == "modify":
             # HRNP documents that its checksum is computed from the data assembled at serialisation time: a parsed packet whose fields were
             # assigned afterwards (what an application forwarding packets does) must serialise with a checksum that verifies
             from okdmr.dmrlib.hytera.pdu.hrnp import HRNP
@@ -419,6 +480,41 @@ class C04(Check):
             pats = [(case.get("pclass", "replay"), tuple(p)) for p in case["ops"] if p]
         else:
             pats = std_patterns(kind, n, random.Random(case["pseed"]), case.get("tier", "quick"), case.get("full"))
+        if poly is not None and "ops" not in case:
+            # adversarial error patterns computed with the reference arithmetic: the code is affine, so every word the library builds for this
+            # PDU kind has the same reference syndrome K (taken here as the majority over a few more library-built words).  If this word's
+            # syndrome differs by delta, then for every window of <width> consecutive code positions there is exactly one burst confined to that
+            # window whose syndrome is delta - the one corruption a checker that agrees with this word would also agree with.  Those bursts are
+            # added to the patterns (they are non-codewords: the guard below re-checks) and judged like every other pattern.
+            def synd(b01):
+                return ref_rem([int(b01[pp]) for pp in order], poly, width)
+
+            r3 = random.Random(case["pseed"] ^ 0x5EED)
+            others = []
+            for _ in range(5):
+                try:
+                    o01 = make(kind, r3)
+                    if len(o01) == n:
+                        others.append(synd(o01))
+                except Exception:
+                    pass
+            if others:
+                K = max(sorted(set(others)), key=others.count)
+                delta = synd(case["wire"]) ^ K
+                if delta:
+                    gfull = (1 << width) | poly
+                    N = len(order)
+                    E = delta
+                    for _ in range(width):  # ref_rem is the direct (non-augmented) form: the syndrome of a pattern P(x) is P(x) * x^width mod g
+                        E = (E ^ gfull) >> 1 if E & 1 else E >> 1
+                    crafted = {}
+                    for s0 in range(N - width, -1, -1):  # window [s0, s0+width): E = delta * x^-(N-width-s0) mod g
+                        if s0 < N - width:
+                            E = (E ^ gfull) >> 1 if E & 1 else E >> 1
+                        crafted[s0] = tuple(sorted(order[s0 + j] for j in range(width) if (E >> (width - 1 - j)) & 1))
+                    pats = pats + [("burst", pp) for s0, pp in sorted(crafted.items()) if pp]
+                    res.probe("clean_word_syndrome_differs_from_kind_constant")
+                    res.fault("crafted_burst", len(crafted))
         dropped = 0
         for pn, (cls, p) in enumerate(pats):
             if pn % 64 == 63:  # a failing parse (truncated word) between receptions: whatever it leaves behind must not matter
@@ -462,6 +558,20 @@ class C04(Check):
                  f"{kind}: wire {case['wire']} with bits {list(p)} inverted is accepted (indicator True) with {'equal' if same_fields else 'different'} field values"
                  f"{' [received check field all-zero]' if check_zero else ''}{' [accepted PDU re-serialises differently from the received bits]' if reser else ''}",
                  dict(sub0, ops=[list(p)], pclass=cls), {"kind": kind, "check_zero": check_zero, "reser_differs": reser})
+        # the clean word again after this reception history (corrupted receptions, failing parses): what the library serialised must still
+        # parse back with its indicator true and the same field values - a long-lived receiver sees exactly this sequence
+        if "ops" not in case or case.get("hist"):
+            try:
+                q1, ind1 = parse(kind, wire.copy())
+                again1 = ("ok", bool(ind1), canon(q1) == bf)
+            except Exception as e:
+                again1 = ("raised", type(e).__name__)
+            res["evals"] += 1
+            if again1 != ("ok", True, True):
+                fail("C04.clean-outcome-changed-after-history", kind,
+                     f"{kind}: library-built PDU {case['wire']} parsed with indicator True before {len(pats)} corrupted receptions of it, afterwards the same clean bits give "
+                     f"{again1} (outcome, indicator, same field values)",
+                     dict(sub0, ops=[list(pp) for _, pp in pats], pclass="std", hist=1, pseed=case.get("pseed", 1)), {"kind": kind, "history": True})
         # in-place pass: a receiver that re-uses ONE buffer object (corrupting and restoring it in place) must see, for every pattern,
         # exactly the outcome the copy-based pass above recorded for the same received bits
         if "inplace_ops" in case:
@@ -493,7 +603,8 @@ class C04(Check):
                     fail("C04.indicator-depends-on-buffer-history", kind,
                          f"{kind}: wire {case['wire']} with bits {list(p)} inverted IN PLACE in a re-used buffer parses as {got[:2]}, a fresh copy of the same bits parses as {want[:2]}",
                          # the whole history of this run is the case: copy-based patterns (ops) then the in-place patterns; ddmin + simplify() shrink both
-                         dict(sub0, ops=[list(pp) for _, pp in pats], pclass="std", inplace_ops=[list(pp) for _, pp in sample[: si + 1]]), {"kind": kind, "inplace": True})
+                         dict(sub0, ops=[list(pp) for _, pp in pats], pclass="std", hist=1, pseed=case.get("pseed", 1), inplace_ops=[list(pp) for _, pp in sample[: si + 1]]),
+                         {"kind": kind, "inplace": True})
                     break
             res["cov"].add(f"{kind}|inplace-pass")
             res.fault("inplace_buffer_reuse", len(sample))
